@@ -17,7 +17,7 @@ CLAIMS = {
              "satisfaction the choosers return reports locks of the candidate whose stack it carries. End to end on a bounded "
              "family (~60 scripts x every subset of their keys x preimage sets x locks met or not, both modes): the "
              "satisfier, evaluated from its typed syntax tree, returns only witnesses that use owned assets and make the "
-             "specification's script succeed in a reference execution under the reported locks.",
+             "specification's script succeed in a reference execution under the reported locks. PsbtInputSatisfier::check_older / check_after are the spent input's own BIP-68 / BIP-65 conditions (grid of sequences, versions, lock times, other inputs final or not; rule shared with C14).",
         note="Trusted: spec/satisfaction.py, spec/outputs.py; rustc THIR; evaluator semantics (fails closed). Signature "
              "validity, script execution and witness optimisation are not decided.",
         tech=STATIC + "symbolic per-variant template extraction from THIR compared with specification tables",
@@ -39,7 +39,7 @@ CLAIMS = {
              "exact table of `minimum`, time-lock availability rule and provenance of root_has_sig, selector binding per "
              "mode for every fragment, threshold selection on n=3 as properties of the result. End to end on a bounded family "
              "(as C01): no single or double third-party edit of a witness returned in non-malleable mode is accepted by "
-             "the reference execution under MINIMALIF + NULLFAIL.",
+             "the reference execution under MINIMALIF + NULLFAIL. Non-malleable entry points of every output type never route into a malleable internal (who-calls-whom rule over all mode-specific call sites, shared with C02).",
         note="Trusted: specification's non-malleable algorithm is sufficient; malleability typing decided by C05.",
         tech=STATIC + "finite decision tables from THIR + symbolic selector binding",
         engine="tablex"),
@@ -88,7 +88,7 @@ CLAIMS = {
              "push-size and compact-size breakpoint; script_size of every fragment equals the encoder's template length "
              "(rule shared with C04); and measured on ~60 whole scripts: the figures computed by evaluating parser + type "
              "checker bound every witness the evaluated satisfier produces (every key subset x preimage set x both modes) "
-             "in element count and bytes, and script_size / pk_cost equal the script's byte length. Every typed leaf constructor of Miniscript (pk_k ... sortedmulti_a, TRUE / FALSE: what parser, decoder and compiler use) attaches the type and figures that from_ast computes for the same node, in every context (shared rule). The public accessors max_satisfaction_size / max_satisfaction_witness_elements return those figures.",
+             "in element count and bytes, and script_size / pk_cost equal the script's byte length. Every typed leaf constructor of Miniscript (pk_k ... sortedmulti_a, TRUE / FALSE: what parser, decoder and compiler use) attaches the type and figures that from_ast computes for the same node, in every context (shared rule). The public accessors max_satisfaction_size / max_satisfaction_witness_elements return those figures. A Satisfier used as asset provider reports each held signature's real length (taproot: 64 or 65 bytes), which is what a plan's announced witness size sums (rule shared with C17).",
         note="Trusted: spec/satisfaction.py, spec/script.py, spec/limits.py; rustc THIR. Executed-opcode and exec-stack "
              "depth figures are not decided against an execution.",
         tech=STATIC + "symbolic extraction of accounting rules as max-plus / linear forms, domination check against template images",
@@ -100,7 +100,7 @@ CLAIMS = {
              "mixed-time-lock fold truth table. Decides structurally: polarity (tightening never admits more) and "
              "switch<->defect<->error pairing of every validation switch / limit on decision trees extracted symbolically "
              "from validate / validate_non_top_level for each of the 30 fragment kinds; every parameter is enforced; "
-             "per-context fragment and key tables; entry-point coverage and constructor discipline on MIR. Numbers are in range on every way in: lock times exactly 1 <= n < 2^31 and thresholds 1 <= k <= n <= key limit, through the constructors, the text parser and the script decoder (boundary tables by evaluation). Every typed leaf constructor of Miniscript (pk_k ... sortedmulti_a, TRUE / FALSE: what parser, decoder and compiler use) attaches the type and figures that from_ast computes for the same node, in every context (shared rule).",
+             "per-context fragment and key tables; entry-point coverage and constructor discipline on MIR. Numbers are in range on every way in: lock times exactly 1 <= n < 2^31 and thresholds 1 <= k <= n <= key limit, through the constructors, the text parser and the script decoder (boundary tables by evaluation). Every typed leaf constructor of Miniscript (pk_k ... sortedmulti_a, TRUE / FALSE: what parser, decoder and compiler use) attaches the type and figures that from_ast computes for the same node, in every context (shared rule). script_num_size and Ctx::pk_len, the byte counts the size switches are applied to, are exact tables (shared with C04).",
         note="Trusted: spec/limits.py; rustc THIR/MIR and constant evaluation. Defect predicates are assumed to compute "
              "what their names say; typed infallible combinators are outside the claim.",
         tech=STATIC + "symbolic decision-tree extraction with monotonicity (polarity) check, exact finite tables, MIR must-pass-through and who-may-construct",
@@ -115,7 +115,7 @@ CLAIMS = {
              "whole descriptors (~75 canonical texts of every output type incl. near-twins differing in one key, "
              "threshold, arity, key order, lock, tree shape or internal key; parsed by evaluating the parser): == holds "
              "exactly for identical texts, cmp is Equal exactly then, antisymmetric and a linear order on the family, "
-             "clones are equal, and equal descriptors feed the same stream to a Hasher (~5600 pairs). The generic iterators of iter/tree.rs (post-order, right-to-left post-order, pre-order; their Iterator::next evaluated from source) yield exactly the definition's order, indices and child indices on policy trees and every miniscript fragment, and the analyser's model of them used by the other rules is that behaviour (shared rule).",
+             "clones are equal, and equal descriptors feed the same stream to a Hasher (~5600 pairs). The generic iterators of iter/tree.rs (post-order, right-to-left post-order, pre-order; their Iterator::next evaluated from source) yield exactly the definition's order, indices and child indices on policy trees and every miniscript fragment, and the analyser's model of them used by the other rules is that behaviour (shared rule). Terminal's hand-written Clone rebuilds every variant with its children in order.",
         note="Trusted: model of the generic tree iterators in iter/tree.rs; key/hash types' own Eq/Ord/Hash; rustc THIR. "
              "Deep trees follow from per-node coverage + arity via the generic pre-order traversal (not re-proved).",
         tech=STATIC + "derive census + payload-coverage decision table extracted from impl bodies (THIR evaluation on model values)",
@@ -225,7 +225,7 @@ CLAIMS["C13"] = dict(
          "every lock, interpreter acceptance implies script acceptance with exactly the executed checks reported. "
          "from_txdata's success set, kept stack, inner kind and script code equal the BIP-16/141/143/341 table on all "
          "(scriptSig, witness) combinations up to length 2 over right/wrong keys, redeem and witness scripts, control "
-         "blocks, annex. The signature-hash flavour used per output type is the BIP-143/341 one. Interpreter::to_no_checks keeps script, stack and kind (the copy inferred without signature checking evaluates the same script).",
+         "blocks, annex. The signature-hash flavour used per output type is the BIP-143/341 one. Interpreter::to_no_checks keeps script, stack and kind (the copy inferred without signature checking evaluates the same script). The public glue puts the iterator in the state the rules above assume: Interpreter::from_txdata stores what inner::from_txdata returned plus the caller's sequence and lock time, iter_custom starts from the spent key / the script at (0,0), a copy of the stack, the interpreter's locks, no error, the spend's signature type and the caller's verifier; iter's verifier is verify_sig on the caller's transaction data; iter_assume_sigs accepts; inferred_descriptor_string names the recognised output type.",
     note="Trusted: spec/msexec.py (reference Script semantics on abstract values, consensus rules), spec/script.py, "
          "spec/satisfaction.py; models of rust-bitcoin parsing / hashing / Script API on tokens; rustc THIR; the evaluator. "
          "Real signature verification, byte-level decoding of the scripts (C04) and the policy-satisfaction clause are "
@@ -293,7 +293,7 @@ CLAIMS["C11"] = dict(
          "chains) equals the fragment's depth on ~1600 typed fragments. Structural: the parser's depth "
          "pre-check (402 accepted, 403 refused) dominates tree construction; every recursive cycle of the MIR call "
          "graph reachable from an entry point consists of audited functions whose depth that pre-check (or "
-         "from_ast's tree-height check) bounds.",
+         "from_ast's tree-height check) bounds. The malformed-text family includes characters at the edges of the accepted range (0x1f, DEL, 0x80, NUL, TAB) with and without checksum-shaped suffixes.",
     note="Trusted: the evaluator's panic semantics and std models; rust-bitcoin models. Descriptor key-expression "
          "parsing (xpub / origin / derivation paths), the planner and allocation sizes are not searched; absence of a "
          "report on the families is not absence of panics.",
@@ -311,7 +311,7 @@ CLAIMS["C06"] = dict(
          "substitutions of the canonical witnesses, and the label predictions are checked: B / V / K / W stack shapes, "
          "z / o / n consumption, u, d, s, f, and that canonical (dis)satisfactions leave non-zero / zero; Type::cast_x "
          "equals type_check of the wrapper on all (cast, child type) pairs (rule shared with C08); the contexts admit "
-         "exactly the fragments / key kinds that can execute under their script rules (rule shared with C12).",
+         "exactly the fragments / key kinds that can execute under their script rules (rule shared with C12). The leaf family includes the boundary lock values (0, 1, 2^31 - 1, 2^31, unit flags).",
     note="Trusted: spec/typesem.py (label meanings incl. the MINIMALIF assumption), spec/msexec.py, spec/script.py; C05 "
          "(rules == specification) and C04 (encoder == templates) connect the labels and scripts to the library; rustc "
          "THIR; evaluator. `e` and `m` (third-party malleation) and deeper fragments are not decided.",
@@ -359,7 +359,7 @@ CLAIMS["C15"] = dict(
          "branch length = depth and the spend info's key / parity; leaves come in tree order with their own scripts; "
          "parsing / printing (TapTreeBuilder, Display) and translate_pk keep depths and order; TapTree::combine puts "
          "both subtrees one level deeper in order and fails exactly beyond depth 128; to_tap_tree passes exactly the leaves "
-         "(depth, script, version, order) on and is None only without a tree.",
+         "(depth, script, version, order) on and is None only without a tree. TapTree::leaves yields every leaf once with its depth from either end, in every interleaving of next / next_back, and len counts the leaves left.",
     note="Trusted: collision freedom and the byte-level tagged hashes / tweak arithmetic of rust-bitcoin (not decided: "
          "the design round's reason for `not applicable` still applies to that part); rustc THIR; evaluator. Bounded "
          "family of tree shapes.",
